@@ -391,6 +391,8 @@ def _cfg_pwc(tier):
                             continue
                         if cost and (n, nq, K) == (3, 2, 3):
                             continue    # 3 training x 2 query samples x 3 classes with a symbolic cost matrix exceed the budget
+                        if (n, nq, K) == (3, 2, 3) and weights and prior == "vector":
+                            continue    # (as above: weights and a prior vector on top exceed the 20 min budget per configuration)
                         out.append(dict(n=n, nq=nq, K=K, cls_order=order, weights=weights, prior=prior, cost=cost, n_neighbors=None))
     # a class order whose sorting permutation is not its own inverse (3-cycle), with a symbolic cost matrix
     out.append(dict(n=2, nq=1, K=3, cls_order="cyclic", weights=False, prior=None, cost="sym", n_neighbors=None))
